@@ -56,7 +56,17 @@ func c18Cond(r *core.Rand, quals []string) string {
 func c18Statement(r *core.Rand, g *gen.StmtGen) (string, string) {
 	t := pick(r, c18Tables)
 	col := func() string { return pick(r, c18Cols) }
-	switch r.Intn(26) {
+	switch r.Intn(27) {
+	case 26:
+		// the catalog tables addressed like any other table; whatever such a
+		// statement does, the statements after it still have to return
+		return pick(r, []string{
+			"INSERT INTO sys_pages VALUES ('x', 999999)", "INSERT INTO sys_pages (table_name, file_offset) VALUES ('t1', 0)", "SELECT * FROM x",
+			"UPDATE sys_schema SET field_type = 9 WHERE table_name = 't1'", "UPDATE sys_schema SET field_name = 'i' WHERE table_name = 't2'", "UPDATE sys_schema SET field_length = 0",
+			"UPDATE sys_pages SET file_offset = 4096", "UPDATE sys_pages SET file_offset = 12345 WHERE table_name = 't2'", "UPDATE sys_pages SET table_name = 't1'",
+			"DELETE FROM sys_pages WHERE table_name = 't2'", "DELETE FROM sys_schema WHERE table_name = 't1'", "DELETE FROM sys_schema", "DELETE FROM sys_pages",
+			"INSERT INTO sys_schema VALUES ('t1', 'zz', 0, 1)", "INSERT INTO sys_schema VALUES ('e', 'i', 77, 1)",
+		}), "catalog_dml"
 	case 24:
 		// names no file system or catalog column takes: very long, path
 		// separators, dot names, a NUL byte, the empty name
@@ -127,7 +137,7 @@ func c18Statement(r *core.Rand, g *gen.StmtGen) (string, string) {
 }
 
 func checkC18(c *core.Ctx) []core.Floor {
-	c.Rule = "sessions in four states (no USE; after a failed USE; database selected; failed USE after a successful one) executing statements from type-confused families over tables with all four column types, NULLs in every nullable column and an empty table: AVG/COUNT over every type and over NULLs, ORDER BY over NULL-bearing columns, comparisons between every pair of types and with NULL-padded join sides, bare columns/literals as conditions, missing / ambiguous / duplicated columns and aliases, GROUP BY on other columns, LIMIT/OFFSET at the edge of 64 bits, database / table / column names no file system takes (255-5000 characters, path separators, dot names, NUL, empty), INSERT with wrong arity / unknown / repeated columns / empty VALUES, UPDATE from a column, DDL and database statements, plus random statements from the C10 grammar over the same names. Monitor: recover() around Session.ExecQuery in a child process (a dead child names its statement); wall-clock watchdog only as inconclusive. One case in eleven runs against the REAL 100 ms flush goroutine instead: multi-row INSERT, UPDATE, DELETE, CREATE TABLE and SELECTs (valid and type-confused) on a cold or warm cache, each held open by a sleep of 2-3 timer periods at its first cache miss, its second page change or inside its log append, so that a flush request is pending while the statement goes on; a script that does not finish is run a second time on its own with a 120 s allowance, and only if it stops at the same statement again is that reported as a hang. Distinct = (session state, statement text); non-trivial = the statement parsed (it reached execution)."
+	c.Rule = "sessions in four states (no USE; after a failed USE; database selected; failed USE after a successful one) executing statements from type-confused families over tables with all four column types, NULLs in every nullable column and an empty table: AVG/COUNT over every type and over NULLs, ORDER BY over NULL-bearing columns, comparisons between every pair of types and with NULL-padded join sides, bare columns/literals as conditions, missing / ambiguous / duplicated columns and aliases, GROUP BY on other columns, LIMIT/OFFSET at the edge of 64 bits, database / table / column names no file system takes (255-5000 characters, path separators, dot names, NUL, empty), INSERT / UPDATE / DELETE addressed to the catalog tables sys_pages and sys_schema (followed by ordinary statements), INSERT with wrong arity / unknown / repeated columns / empty VALUES, UPDATE from a column, DDL and database statements, plus random statements from the C10 grammar over the same names. Monitor: recover() around Session.ExecQuery in a child process (a dead child names its statement); wall-clock watchdog only as inconclusive. One case in eleven runs against the REAL 100 ms flush goroutine instead: multi-row INSERT, UPDATE, DELETE, CREATE TABLE and SELECTs (valid and type-confused) on a cold or warm cache, each held open by a sleep of 2-3 timer periods at its first cache miss, its second page change or inside its log append, so that a flush request is pending while the statement goes on; a script that does not finish is run a second time on its own with a 120 s allowance, and only if it stops at the same statement again is that reported as a hang. Distinct = (session state, statement text); non-trivial = the statement parsed (it reached execution)."
 	c.Assume = []string{"any result or error value is acceptable; only panics, process death and hangs are judged"}
 	drv := mustDriver(c, false)
 	n := 600
